@@ -6,7 +6,7 @@
    full vector, [], slice), and they preserve the invariant.  In particular none of the unsafe operations reaches
    undefined behaviour (None) on a represented vector, except where the list model itself panics (push when full). *)
 From Coq Require Import NArith List Bool Lia PeanoNat.
-From AV Require Import Generated.Table Spec.Vt Model.Base Model.Imp Model.Utf8parse Model.Parser Model.ArrayVec Generated.ArrayVecFn.
+From AV Require Import Generated.Table Generated.ParseCfg Spec.Vt Model.Base Model.Imp Model.Utf8parse Model.Parser Model.ArrayVec Generated.ArrayVecFn.
 Import ListNotations.
 Local Open Scope N_scope.
 
@@ -481,3 +481,9 @@ Proof.
   assert (E : (av_len_uint_max <? cap) = false) by (apply N.ltb_ge; exact Hc). rewrite E. cbn [option_map].
   eexists. split; [reflexivity|]. apply rep_empty. exact Hc.
 Qed.
+
+(* ... and MAX_OSC_RAW (Generated/ParseCfg.v, read from crates/anstyle-parse/src/lib.rs on every run) does: `ArrayVec::new()`
+   inside `Parser::default()` does not panic under `core` *)
+Theorem translated_arrayvec_default_max_osc_raw :
+  exists v0, g_av_default N pc_max_osc_raw = Some v0 /\ av_rep pc_max_osc_raw v0 ([] : list N).
+Proof. apply translated_arrayvec_default_is_empty. vm_compute. discriminate. Qed.
